@@ -118,9 +118,13 @@ type Proposal struct {
 	Weight    float64 // relative to 1.0 for a link head
 	Fire      func()
 	// JoinWith: in concurrent-dispatch mode this event is meant to meet a delivery into node JoinNode: it is
-	// only started in the same step as such a delivery (or on its own when no message is deliverable at all)
+	// only started in the same step as such a delivery (or on its own once the fair tail of the run has begun)
 	JoinWith bool
 	JoinNode uint16
+	// JoinClass, when set, restricts that to deliveries whose message class starts with it; JoinP is the probability
+	// with which one such opportunity is taken (0: 0.35)
+	JoinClass string
+	JoinP     float64
 }
 
 type Action struct {
@@ -202,6 +206,8 @@ type World struct {
 	StuckDeliveries []*Msg
 	stuck           map[*Link]*Msg
 	stepA           atomic.Int64
+	hold            bool
+	held            []func()
 }
 
 // StepA is the current step number, readable from any goroutine.
@@ -505,20 +511,29 @@ func (w *World) deliver(l *Link) {
 	if m.Data == nil {
 		inc.Data = nil
 	}
-	go func() {
-		defer func() {
-			if r := recover(); r != nil {
+	launch := func() {
+		go func() {
+			defer func() {
+				if r := recover(); r != nil {
+					w.mu.Lock()
+					w.Panics = append(w.Panics, PanicRec{Where: "HandleMessage@" + strconv.Itoa(int(m.To)), Value: fmt.Sprint(r), Stack: string(debug.Stack()), Msg: m})
+					w.mu.Unlock()
+				}
 				w.mu.Lock()
-				w.Panics = append(w.Panics, PanicRec{Where: "HandleMessage@" + strconv.Itoa(int(m.To)), Value: fmt.Sprint(r), Stack: string(debug.Stack()), Msg: m})
+				l.busy = false
+				delete(w.stuck, l)
 				w.mu.Unlock()
-			}
-			w.mu.Lock()
-			l.busy = false
-			delete(w.stuck, l)
-			w.mu.Unlock()
+			}()
+			dst.EP.HandleMessage(inc)
 		}()
-		dst.EP.HandleMessage(inc)
-	}()
+	}
+	if w.hold {
+		// concurrent dispatch: the dispatcher goroutines of a step are started together at the end of the step's
+		// composition (see Run), after the API events that joined the step
+		w.held = append(w.held, launch)
+		return
+	}
+	launch()
 }
 
 // Stuck returns deliveries whose HandleMessage has not returned although the
@@ -636,8 +651,8 @@ func (w *World) Run(s Scheduler, lim RunLimits, done func() bool) *Violation {
 		if w.Propose != nil {
 			ps := w.Propose()
 			for i := range ps {
-				if ps[i].JoinWith && !w.Serial && w.JoinProposals && len(choices) > 0 && !fair {
-					continue // waits for a delivery into its node (join loop below)
+				if ps[i].JoinWith && !w.Serial && w.JoinProposals && !fair {
+					continue // waits for a delivery into its node (join loop below), at the latest for the fair tail
 				}
 				choices = append(choices, Choice{Key: ps[i].Key, Proposal: &ps[i]})
 			}
@@ -670,10 +685,11 @@ func (w *World) Run(s Scheduler, lim RunLimits, done func() bool) *Violation {
 			continue
 		}
 		c := choices[idx]
-		firstDest, haveDest := uint16(0), false
+		w.hold = !w.Serial
+		firstDest, haveDest, firstClass := uint16(0), false, ""
 		if c.Link != nil {
-			firstDest, haveDest = c.Link.To, true
-			w.record(Action{K: c.Key, C: c.Link.Q[0].Class()})
+			firstDest, haveDest, firstClass = c.Link.To, true, c.Link.Q[0].Class()
+			w.record(Action{K: c.Key, C: firstClass})
 			w.deliver(c.Link)
 		} else {
 			w.record(Action{K: c.Key})
@@ -695,7 +711,7 @@ func (w *World) Run(s Scheduler, lim RunLimits, done func() bool) *Violation {
 						continue // injections are the adversary's own, sequential decisions
 					}
 					if ps[i].JoinWith {
-						if !haveDest || ps[i].JoinNode != firstDest {
+						if !haveDest || ps[i].JoinNode != firstDest || !strings.HasPrefix(firstClass, ps[i].JoinClass) {
 							continue
 						}
 						more = append(more, Choice{Key: ps[i].Key, Proposal: &ps[i], Affine: true})
@@ -718,9 +734,27 @@ func (w *World) Run(s Scheduler, lim RunLimits, done func() bool) *Violation {
 			} else {
 				w.record(Action{K: more[j].Key, J: true})
 				w.Probes["concurrent-api-event"]++
+				if more[j].Affine {
+					w.Probes["api-event-joined-to-delivery-into-its-node"]++
+					if len(w.Delivered) > 0 {
+						w.Probes["api-event-joined-to:"+w.Delivered[len(w.Delivered)-1].Class()]++
+					}
+				}
 				more[j].Proposal.Fire()
+				if more[j].Affine {
+					// the event was waiting for this delivery: give its goroutines a head start of a few microseconds,
+					// else the dispatcher is through before the call has got anywhere
+					for i := 0; i < 40; i++ {
+						runtime.Gosched()
+					}
+				}
 			}
 		}
+		w.hold = false
+		for _, launch := range w.held {
+			launch()
+		}
+		w.held = w.held[:0]
 	}
 }
 
